@@ -278,7 +278,9 @@ ApClose(St, c) ==
 
 \* fcntl(F_DUPFD / F_DUPFD_CLOEXEC)
 ApDup(St, c) ==
-  IF ~IsOpen(St, c.fd) THEN Out(RErr("EBADF"), St)
+  IF ~IsOpen(St, c.fd) /\ LimSet(St) /\ (c.min >= St.lim \/ LowestFree(St, c.min) = -2)
+    THEN Out(RUndef("bad descriptor and no descriptor available"), St)   \* errors are not ordered
+  ELSE IF ~IsOpen(St, c.fd) THEN Out(RErr("EBADF"), St)
   \* "[EINVAL] cmd is F_DUPFD and arg is ... greater than or equal to {OPEN_MAX}"
   ELSE IF LimSet(St) /\ c.min >= St.lim THEN Out(RErr("EINVAL"), St)
   ELSE LET fd == LowestFree(St, c.min) IN
@@ -457,12 +459,12 @@ ApGetcwd(St, c) == Out(RCwd(St.cwd), St)
 \* presence is implementation-defined, are dropped by the harness)
 ApOpendir(St, c) ==
   LET w == Resolve(St, c.path, TRUE) IN
+  \* opendir "may fail" with EMFILE when no descriptor is available
+  IF LowestFree(St, 0) = -2 THEN Out(RUndef("opendir without a free descriptor"), St) ELSE
   CASE w.st \in {"ENOENT", "ENOTDIR", "ELOOP"} -> Out(RErr(w.st), St)
     [] w.st = "missing" -> Out(RErr("ENOENT"), St)
     [] w.st = "out"     -> Out(RUndef("outside the universe"), St)
     [] OTHER -> IF St.node[w.p].k # "dir" THEN Out(RErr("ENOTDIR"), St)
-                \* opendir "may fail" with EMFILE when no descriptor is available
-                ELSE IF LowestFree(St, 0) = -2 THEN Out(RUndef("opendir without a free descriptor"), St)
                 ELSE Out(REnts({p[Len(p)] : p \in {q \in Universe : q # <<>> /\ Parent(q) = w.p
                                                                    /\ St.node[q].k # "none"}}), St)
 
